@@ -654,3 +654,75 @@ Definition req_everywhere (e : env) : bool :=
   forallb (fun '(_, r) => forallb (fun w => forallb (fun a => negb (a_req a) || listed (v_attrs w) (a_name a)) (r_attrs r)) (r_views r)) e.
 
 Definition view_blind_safe (e : env) : bool := no_containers e || req_everywhere e.
+
+(* ------------------------------------- where the rendered attributes travel (HTTP response) *)
+
+(* A response may carry some attributes of the result in headers / cookies (Header("a:X-A"),
+   Cookie(...)): buildHTTPResponseBody removes them from the body type (and from its views);
+   the encoder sets a header only when the projected attribute is set. m = the mapped names. *)
+Fixpoint mem_name (a : name) (m : list name) : bool :=
+  match m with [] => false | b :: m' => String.eqb b a || mem_name a m' end.
+
+Fixpoint vfind (fs : vflds) (a : name) : option val :=
+  match fs with VFNil => None | VFCons b x r => if String.eqb b a then Some x else vfind r a end.
+
+Fixpoint hdr_f (m : list name) (fs : vflds) : vflds :=
+  match fs with
+  | VFNil => VFNil
+  | VFCons a x r => if mem_name a m then VFCons a x (hdr_f m r) else hdr_f m r
+  end.
+
+Fixpoint body_f (m : list name) (fs : vflds) : vflds :=
+  match fs with
+  | VFNil => VFNil
+  | VFCons a x r => if mem_name a m then body_f m r else VFCons a x (body_f m r)
+  end.
+
+Inductive wire := WResp (view : option name) (carried : vflds) (body : val) | WFault | WPanic.
+
+Definition server_wire (e : env) (c : bool) (t : name) (fixed : option name) (chosen : name)
+           (m : list name) (x : val) : wire :=
+  match server_respond e c t fixed chosen x with
+  | SResp h (VObj fs) => WResp h (hdr_f m fs) (VObj (body_f m fs))
+  | SResp h b => WResp h VFNil b
+  | SFault => WFault
+  | SPanic => WPanic
+  end.
+
+(* the client puts the carried attributes back next to the body's (order of the type) *)
+Definition reassemble (r : rtype) (carried body : vflds) : vflds :=
+  (fix go (l : list attr) : vflds :=
+     match l with
+     | [] => VFNil
+     | a :: l' =>
+       match vfind carried (a_name a) with
+       | Some x => VFCons (a_name a) x (go l')
+       | None => match vfind body (a_name a) with
+                 | Some x => VFCons (a_name a) x (go l')
+                 | None => go l'
+                 end
+       end
+     end) (r_attrs r).
+
+(* -------------------------------------------- the generated view constructors (codegen) *)
+
+(* new<T>View<V> (service type -> projected type) and new<T><V> (back): the fields they
+   touch and, for a result type or collection attribute, the constructor they call for it:
+   new<T'>[Collection]View<U> with U the view the parent's view entry names *)
+Definition ctor_call (ov : option name) (a : attr) : option (bool * name * name) :=
+  match a_ty a with
+  | TRes t' => Some (false, t', nested_view ov a)
+  | TColl t' => Some (true, t', nested_view ov a)
+  | _ => None
+  end.
+
+Definition ctor_plan (e : env) (t v : name) : option (list (name * option (bool * name * name))) :=
+  match entries e (false, t, v) with
+  | None => None
+  | Some (r, l) =>
+    Some (flat_map (fun a =>
+            match view_entry l (a_name a), find_attr r (a_name a) with
+            | Some ov, Some at_ => [(a_name a, ctor_call ov at_)]
+            | _, _ => []
+            end) (r_attrs r))
+  end.
